@@ -245,7 +245,7 @@ def Pred.show : Pred → String
   | .hasSuffix e s => "strings.HasSuffix(" ++ e.show ++ ", " ++ goQuote s ++ ")"
   | .contains e s => "strings.Contains(" ++ e.show ++ ", " ++ goQuote s ++ ")"
   | .ne a b => a.show ++ " != " ++ b.show
-  | .isEmpty e => "len(" ++ e.show ++ ") == 0"
+  | .isEmpty e => e.show ++ " == \"\""
   | .not p => "!" ++ p.show
   | .and p q => p.show ++ " && " ++ q.show
   | .or p q => p.show ++ " || " ++ q.show
